@@ -21,12 +21,14 @@
    STEP 2 lazy_exec_phase_perm_partial (any permutation of the execution phase: the blocks' canonical deltas laid out in list order, all configurations),
    lazy_eval_extract_partial (a successful lazy evaluation phase read back as store valuation + graph operations), STEP 3 lazy_block_order_iso_partial.
    Earlier theorems (kept): scoped-variable forcing and the deferred graph operations are order independent.
-   NOT proved: blocks that communicate through scoped variables (STEP 4).  The execution phase would extend (cells collect pairs in block order; eager positions must be
-   scoped-free so that no cell is forced early: the K4b class), but the evaluation phase needs new forcing lemmas: with a reader before its definer the value thunk of a
-   definition lies AFTER the reading thunk in the store, so the store is no longer acyclic by index (the well-foundedness used by SLForce/SL2Force and here), and a set value
-   may then mix nodes of several blocks, so values would have to be compared up to re-sorting of sets.  Debug attributes: see c08_debug_attribute_depends_on_order. *)
+   STEP 4 (blocks that communicate through scoped variables): lazy_block_order_iso_scoped_partial / lazy_block_order_fail_scoped_partial at the end of this file, on the
+   fragment `sstmt` of Proofs/ScPermSim.v (definitions `let @cap.x = e`, `node @cap.x`; reads `@(scope).x` in deferred positions, possibly BEFORE the defining block ran;
+   inherited names allowed).  The by-index acyclicity of the thunk store is replaced by a reference evaluator over a static environment (Proofs/ScPermCbn.v).
+   Still NOT proved: scoped reads inside thunks (values of local variables or of other scoped definitions), as arguments of calls or elements of sets (a value may then mix
+   nodes of several blocks, so values would have to be compared up to re-sorting of sets), definitions whose scope is not a capture.  Debug attributes: see c08_debug_attribute_depends_on_order. *)
 From TSG Require Import Model.Lazy Model.Run Model.Stdlib Proofs.Scoped Proofs.PermFacts Proofs.SLGraph Proofs.SLForce Proofs.SLExpr Proofs.SLStmt Proofs.StrictLazy Proofs.EvalPerm Proofs.EvalPermLazy
-  Proofs.BlockPermRen Proofs.BlockPermSim Proofs.BlockPermSwap Proofs.BlockPermExec Proofs.BlockPermDen Proofs.BlockPermGraph Proofs.BlockPermEval Proofs.BlockPermStd Proofs.BlockPermExample Proofs.BlockPermFuel Proofs.BlockPermRun.
+  Proofs.BlockPermRen Proofs.BlockPermSim Proofs.BlockPermSwap Proofs.BlockPermExec Proofs.BlockPermDen Proofs.BlockPermGraph Proofs.BlockPermEval Proofs.BlockPermStd Proofs.BlockPermExample Proofs.BlockPermFuel Proofs.BlockPermRun
+  Proofs.ScPermCbn Proofs.ScPermSound Proofs.ScPermAdeq Proofs.ScPermRen Proofs.ScPermSim Proofs.ScPermSwap Proofs.ScPermTyped Proofs.ScPermSR Proofs.ScPermExec Proofs.ScPermEvalSwap Proofs.ScPermRun Proofs.ScPermExample.
 From Coq Require Import Permutation.
 
 (* forcing the definitions collected for one scoped-variable name: whether it succeeds (no duplicate
@@ -256,3 +258,119 @@ Example c08_debug_attribute_depends_on_order :
   dx_run [(0, c8_m); (1, c8_m)] = Ok [{| g_attrs := []; g_edges := [(0, [([108], VStr (dx_loc 50))])] |}] /\
   dx_run [(1, c8_m); (0, c8_m)] = Ok [{| g_attrs := []; g_edges := [(0, [([108], VStr (dx_loc 54))])] |}].
 Proof. exact dx_order_observable. Qed.
+
+(* ================= STEP 4: the whole run WITH scoped variables =================
+   "a scoped variable may be read by a stanza that textually precedes the one defining it".
+   FRAGMENT (`pm_ok2` = every executed block satisfies `sstmt`, Proofs/ScPermSim.v; decidable on the program up to the choice of okfn):
+     - everything of the fragment `fstmt` of Step 3 (local variables, `if`, `for`, `scan`, comprehensions, shorthands, sets of graph nodes, calls of functions in okfn);
+     - DEFINITIONS of scoped variables `let @cap.x = e` and `node @cap.x`: the scope is a capture (a syntax node known at execution time: finding the cell forces nothing),
+       the value e contains no scoped read; immutable only (`var @..`/`set @..` are errors in every order anyway); any nesting inside `if`/`for`/`scan`;
+     - READS `@(scope).x` — the scope any expression of the fragment (a capture, a local variable holding a syntax node, ..) or again a read (`@(@cap.a).b`) —
+       in DEFERRED positions: the node of `attr (..)`, source and sink of `edge` and `attr (.. -> ..)`, the values of attributes that are not shorthands,
+       print arguments — also inside list literals; in particular an edge may end in a node that a LATER block creates and stores in a scoped variable;
+     - names declared `inherit` are allowed (the ancestor walk only reads the forced map);
+     - as in Step 3: called functions graph-pure and equivariant under order-preserving renamings (`call_ok`), globals only mention nodes of g0, no debug attributes,
+       no cancellation budget.
+   NOT covered (the statement is open there): a scoped read inside the value of a local variable or of another scoped definition (a thunk that reads a cell), as an argument
+   of a call or an element of a set (such values mix graph nodes of several blocks; the renumbering is monotone only inside one block, so sets would have to be re-sorted
+   and functions be equivariant under arbitrary injective renamings), in eager positions (conditions, `for`/`scan` subjects: the cell would be forced before all definitions
+   are collected — an error that DOES depend on the order), DEFINITIONS whose scope expression is not a capture.
+   PROOF ROUTE (Proofs/ScPerm*.v, 12 files): the by-index acyclicity of the thunk store (false as soon as a reader precedes its definer) is replaced by a reference evaluator
+   `cev` over the static environment of the state at the beginning of the evaluation phase (bodies of the thunks, forced maps of the cells): plain unfolding, no state; a finite
+   unfolding is the well-founded dependency order.  SOUNDNESS: a successful lazy evaluation phase computed what `cev` computes (no acyclicity assumed: it follows from success).
+   ADEQUACY: where `cev` has a value the lazy evaluator converges to it (strong induction on the fuel of `cev`; a thunk is forced at the minimal fuel of its body, so the thunks
+   under evaluation have no value at that fuel and are never met).  `cev` commutes with a renumbering that is monotone on every block (values local to a block vs. mixed values).
+   Execution phase: one block appends the same delta, scoped definitions included, whatever the sizes and the cells it starts from (re-basing the relation of Step 1); exchanging two
+   adjacent blocks relates the final states by the exchange of two ranges of ids; the definitions of a cell are permuted (scoped_force_perm_partial).  A permutation is a sequence
+   of adjacent exchanges; graph isomorphisms compose. *)
+
+(* one block, started from two states (any sizes, any unforced cells), appends the same delta — fresh nodes, thunks, deferred statements AND scoped definitions — shifted *)
+Theorem lazy_block_shift_scoped_partial : forall (rx : Type) (t : tree) (fl : file) (cfg : config) (glob : globals) (regexes : list rx)
+    (find : rx -> str -> option (list (option (N * N)))) (call : ident -> graph -> list value -> res (value * graph))
+    (eaok : amap -> Prop) (okfn : ident -> Prop) (n0 : N),
+  (forall l : loc, eaok match c_loc_attr cfg with Some k => [(k, VStr (loc_text l))] | None => [] end) ->
+  (forall f : ident, okfn f -> call_ok call f) ->
+  (forall (name : ident) (v : value), globals_get glob name = Some v -> vall (fun i : N => i < n0) v) ->
+  forall (st : stanza) (qm : qmatch) (fuel : nat) (B1 B2 : lstate) (p : polls),
+  block_ok2 fl okfn st qm -> n0 <= gn B1 -> n0 <= gn B2 -> one_frame B1 -> one_frame B2 -> allunf (l_scoped B1) -> allunf (l_scoped B2) ->
+  match lexec_stanza t fl cfg glob regexes find call fuel st qm B1 p with
+  | Ok (_, s1', p') =>
+      exists (d : delta2) (s2' : lstate),
+        lexec_stanza t fl cfg glob regexes find call fuel st qm B2 p = Ok (tt, s2', p') /\ extends2 B1 d s1' /\
+        extends2 B2 (dren2 (shg (gn B1) (gn B2)) (shl (sn B1) (sn B2)) d) s2' /\ delta_ok2 eaok okfn n0 (gn B1) (sn B1) d
+  | Err e => lexec_stanza t fl cfg glob regexes find call fuel st qm B2 p = Err e
+  | Panic x => lexec_stanza t fl cfg glob regexes find call fuel st qm B2 p = Panic x
+  | OutOfFuel => lexec_stanza t fl cfg glob regexes find call fuel st qm B2 p = OutOfFuel
+  end.
+Proof. exact @block_shift2. Qed.
+
+(* SOUNDNESS of the lazy evaluation phase w.r.t. the reference evaluator (scoped reads anywhere, any store — no acyclicity hypothesis): a successful evaluation phase
+   computed graph operations that the deferred statements denote, gave every thunk a value and forced every cell *)
+Theorem lazy_eval_sound_scoped_partial : forall (t : tree) (fl : file) (call : ident -> graph -> list value -> res (value * graph)) (okfn : ident -> Prop),
+  (forall f : ident, okfn f -> call_ok call f) ->
+  forall (F : nat) (s : lstate) (p : polls) (u : unit) (fin : lstate) (p' : polls),
+  evaluate_phase t fl call F s p = Ok (u, fin, p') -> evalable2 okfn s ->
+  exists (eops : list (N * N)) (aopss : list (list aop)) (g1 : graph),
+    Forall2 (sden_edge t fl call (env_of s)) (l_edges s) eops /\ Forall2 (sden_astmt t fl call (env_of s)) (l_attrs s) aopss /\
+    Forall (sprint_ok t fl call (env_of s)) (l_prints s) /\
+    apply_edges eops (l_graph s) = Some g1 /\ apply_attrs (concat aopss) g1 = Some (l_graph fin) /\
+    (forall i : nat, (i < length (l_store s))%nat -> exists v : value, cevv t fl call (env_of s) (LVar (N.of_nat i)) v) /\
+    (forall (name : ident) (c : scoped_values), alist_get name (l_scoped s) = Some c -> se_cell (env_of s) name <> None).
+Proof. exact eval_sound. Qed.
+
+(* ADEQUACY: if the deferred statements denote graph operations that succeed, every thunk has a value and every cell forces, the lazy evaluation phase converges
+   (from some fuel on) to the graph the operations give *)
+Theorem lazy_eval_adequate_scoped_partial : forall (t : tree) (fl : file) (call : ident -> graph -> list value -> res (value * graph)) (okfn : ident -> Prop),
+  (forall f : ident, okfn f -> call_ok call f) ->
+  forall E : senv, env_ok okfn E ->
+  forall (s : lstate) (p : polls) (eops : list (N * N)) (aopss : list (list aop)) (g1 g2 : graph),
+  ainv t fl call E s -> noforcing s ->
+  Forall2 (sden_edge t fl call E) (l_edges s) eops -> Forall2 (sden_astmt t fl call E) (l_attrs s) aopss -> Forall (sprint_ok t fl call E) (l_prints s) ->
+  Forall (lsok okfn) (l_edges s) -> Forall (lsok okfn) (l_attrs s) -> Forall (lsok okfn) (l_prints s) ->
+  apply_edges eops (l_graph s) = Some g1 -> apply_attrs (concat aopss) g1 = Some g2 ->
+  (forall i : nat, (i < length (l_store s))%nat -> exists v : value, cevv t fl call E (LVar (N.of_nat i)) v) -> cells_total E s -> nob p ->
+  SLConv.convP (fun F : nat => evaluate_phase t fl call F s p) (fun (_ : unit) (s' : lstate) (p' : polls) => l_graph s' = g2 /\ nob p').
+Proof. exact eval_adequate. Qed.
+
+(* THE WHOLE-RUN THEOREM with scoped variables: if the run on ms succeeds, then from some fuel on the run on any permutation ms' succeeds, and the graphs are isomorphic
+   under a renumbering of the graph nodes that fixes the nodes of the initial graph *)
+Theorem lazy_block_order_iso_scoped_partial : forall (rx : Type) (t : tree) (fl : file) (supplied : globals) (regexes : list rx)
+    (find : rx -> str -> option (list (option (N * N)))) (call : ident -> graph -> list value -> res (value * graph)) (okfn : ident -> Prop),
+  (forall f, okfn f -> call_ok call f) ->
+  forall g0 : graph, gclosed (N.of_nat (length g0)) g0 ->
+  (forall glob, check_globals (f_globals fl) (globals_nested supplied) = Ok glob ->
+     forall name v, globals_get glob name = Some v -> vall (fun i => i < N.of_nat (length g0)) v) ->
+  forall (fuel : nat) (ms ms' : list (N * qmatch)) (ls : lstate) (p : polls),
+  Permutation ms ms' -> Forall (pm_ok2 fl okfn) ms ->
+  run_lazy t fl config0 supplied None regexes find call fuel ms g0 = Ok (ls, p) ->
+  exists r r', (forall i, r' (r i) = i) /\ (forall i, r (r' i) = i) /\ (forall i, i < N.of_nat (length g0) -> r i = i) /\
+    exists fuel0, forall fuel', (fuel0 <= fuel')%nat -> exists ls' p',
+      run_lazy t fl config0 supplied None regexes find call fuel' ms' g0 = Ok (ls', p') /\ graph_iso r (l_graph ls) (l_graph ls').
+Proof. exact @lazy_run_perm_scoped. Qed.
+(* ... and the failure direction: an error or a panic for one order excludes success for every other order, whatever the fuel *)
+Theorem lazy_block_order_fail_scoped_partial : forall (rx : Type) (t : tree) (fl : file) (supplied : globals) (regexes : list rx)
+    (find : rx -> str -> option (list (option (N * N)))) (call : ident -> graph -> list value -> res (value * graph)) (okfn : ident -> Prop),
+  (forall f, okfn f -> call_ok call f) ->
+  forall g0 : graph, gclosed (N.of_nat (length g0)) g0 ->
+  (forall glob, check_globals (f_globals fl) (globals_nested supplied) = Ok glob ->
+     forall name v, globals_get glob name = Some v -> vall (fun i => i < N.of_nat (length g0)) v) ->
+  forall (fuel : nat) (ms ms' : list (N * qmatch)),
+  Permutation ms ms' -> Forall (pm_ok2 fl okfn) ms ->
+  (forall r, run_lazy t fl config0 supplied None regexes find call fuel ms g0 <> Ok r) ->
+  run_lazy t fl config0 supplied None regexes find call fuel ms g0 <> OutOfFuel ->
+  forall fuel' r, run_lazy t fl config0 supplied None regexes find call fuel' ms' g0 <> Ok r.
+Proof. exact @lazy_run_perm_scoped_fail. Qed.
+
+(* non-vacuity: (module) @m { node n  attr (n) r = @m.d  edge n -> @m.d }  reads @m.d,  (module) @m { node @m.d  attr (@m.d) k = (plus 1 2) }  defines it.
+   With the reader FIRST (c8_ms) and with the definer first (c8_ms') the runs succeed; the graphs differ and are isomorphic under 0 <-> 1 (cross-check by evaluation of the model);
+   the hypotheses of lazy_block_order_iso_scoped_partial hold for the program, so the theorem gives the second run and an isomorphism from the first alone *)
+Example c08_scoped_two_orders :
+  lgraph_of (run_lazy K7.k7_tree sx_file config0 [[]] None ([] : list Regex.regex) Regex.rx_captures c8_call default_fuel c8_ms []) = Ok sx_g /\
+  lgraph_of (run_lazy K7.k7_tree sx_file config0 [[]] None ([] : list Regex.regex) Regex.rx_captures c8_call default_fuel c8_ms' []) = Ok sx_g' /\
+  Permutation c8_ms c8_ms' /\ sx_g <> sx_g' /\ graph_iso sx_r sx_g sx_g'.
+Proof. split; [exact sx_run|]. split; [exact sx_run'|]. split; [apply perm_swap|]. split; [exact sx_differ|exact sx_iso]. Qed.
+Example c08_scoped_theorem_applies :
+  exists r r', (forall i, r' (r i) = i) /\ (forall i, r (r' i) = i) /\
+    exists fuel0, forall fuel', (fuel0 <= fuel')%nat -> exists ls' p',
+      run_lazy K7.k7_tree sx_file config0 [[]] None ([] : list Regex.regex) Regex.rx_captures c8_call fuel' c8_ms' [] = Ok (ls', p') /\ graph_iso r sx_g (l_graph ls').
+Proof. exact sx_theorem_applies. Qed.
